@@ -1110,8 +1110,10 @@ class Exec:
         if spec[0] == "var":
             self.k.add_input(spec[1])
             return V("num", ("v", spec[1]), spec[2], None)
+        if spec[0] == "idx":                       # opaque producer of a node-index array (e.g. flow-corrected from nodes)
+            return V("idx", None, "b", None, which=spec[1])
         if spec[0] == "fun":
-            a = [self.want(e, self.expr(x), "num") for x in args]
+            a = [self.want(e, self.expr(x), "num") for x in list(args) + [k.value for k in getattr(e, "keywords", [])]]
             if len(a) != spec[2]:
                 err(e, "opaque function %s called with %d arguments, expected %d" % (spec[1], len(a), spec[2]))
             dom, mask = self.join(e, *a)
@@ -1391,7 +1393,28 @@ def k_pamb():
                      name="p_correction_height_air", outputs=["p"])
 
 
+PT = "properties/properties_toolbox.py"
+_PROPS_OPAQUE = {"get_from_nodes_corrected": ("idx", "inlet"), "get_to_nodes_corrected": ("idx", "outlet"),
+                 "fluid.get_viscosity": ("fun", "fl_viscosity", 2), "fluid.get_density": ("fun", "fl_density", 1),
+                 "fluid.get_compressibility": ("fun", "fl_compressibility", 2),
+                 "fluid.get_heat_capacity": ("fun", "fl_heat_capacity", 1)}
+
+
+def k_branch_props():
+    """get_branch_real_eta / get_branch_real_density (liquid, gas) / get_branch_cp: which temperatures and pressures enter.
+    Gathers through get_from/to_nodes_corrected (flow-direction corrected nodes) are inputs np_inlet_<COL> / np_outlet_<COL>."""
+    par = {"fluid": "obj", "node_pit": "npit", "branch_pit": "bpit"}
+    return [translate(PT, "get_branch_real_eta", dict(par, pm="b"), name="real_eta", outputs=["eta"],
+                      opaque_calls=_PROPS_OPAQUE),
+            translate(PT, "get_branch_real_density", par, name="real_rho_liq", outputs=["rho"],
+                      opaque_calls=_PROPS_OPAQUE, attr_consts={"fluid.is_gas": False}),
+            translate(PT, "get_branch_real_density", par, name="real_rho_gas", outputs=["rho"],
+                      opaque_calls=_PROPS_OPAQUE, attr_consts={"fluid.is_gas": True}),
+            translate(PT, "get_branch_cp", par, name="real_cp", outputs=["cp"], opaque_calls=_PROPS_OPAQUE)]
+
+
 FILES = {
+    "KBranchProps": k_branch_props,
     "KFriction": lambda: [k_calc_lambda(f, g, nb) for f in ("nikuradse", "swamee-jain") for g in (False, True)
                             for nb in (False, True)] + [k_der_lambda("nikuradse"), k_der_lambda("swamee-jain")],
     "KPamb": lambda: [k_pamb()],
